@@ -8,12 +8,16 @@ class MWFamily : public IAlgoFamily {
   public:
     std::string name() const override { return "multigraph+weighted classes"; }
     bool handles(const std::string &k) const override {
-        return k == "edgelist_multi" || k == "edgelist_weighted" || k == "dijkstra" || k == "reject_dijkstra";
+        return k == "edgelist_multi" || k == "edgelist_weighted" || k == "dijkstra" || k == "reject_dijkstra" ||
+               k == "big_conv";
     }
     CaseResult run(const json &c, unsigned seed) override {
         const std::string k = c.at("k");
         CaseResult r;
-        if (k == "edgelist_multi")
+        if (k == "big_conv") {
+            bigEdgeList<DirectedMultigraph, UndirectedMultigraph, EdgeMultiplicity>(c, "multi", r);
+            bigEdgeList<DirectedWeightedGraph, UndirectedWeightedGraph, EdgeWeight>(c, "weighted", r);
+        } else if (k == "edgelist_multi")
             edgeList<DirectedMultigraph, UndirectedMultigraph, EdgeMultiplicity>(c, r);
         else if (k == "edgelist_weighted")
             edgeList<DirectedWeightedGraph, UndirectedWeightedGraph, EdgeWeight>(c, r);
@@ -37,6 +41,34 @@ class MWFamily : public IAlgoFamily {
     }
 
   private:
+    template <class DGT, class UGT, class A> void bigEdgeList(const json &c, const char *kind, CaseResult &r) {
+        using E = LabeledEdge<A>;
+        std::mt19937 rng(c.value("seed", 1u) + 17);
+        const size_t n = c.at("n").get<size_t>();
+        std::vector<E> v;
+        json seq = json::array();
+        for (size_t k = 0; k < c.value("list", 120); ++k) {
+            VertexIndex i = rng() % n, j = rng() % n;
+            int a = (int)(rng() % 4); // multiplicity 0 is a no-op, weight 0 a valid weight
+            if (k % 5 == 2 && !v.empty()) {
+                auto &e0 = seq[rng() % seq.size()];
+                i = e0[1].get<VertexIndex>();
+                j = e0[0].get<VertexIndex>();
+            }
+            v.push_back(E(i, j, (A)a));
+            seq.push_back({i, j, a});
+        }
+        try {
+            DGT d(v);
+            UGT u(std::deque<E>(v.begin(), v.end()));
+            r.records.push_back({{"k", "conv_edgelist"}, {"kind", kind}, {"family", GInfo<DGT>::name()}, {"dir", true},
+                                 {"seq", seq}, {"out", encOf(d)}});
+            r.records.push_back({{"k", "conv_edgelist"}, {"kind", kind}, {"family", GInfo<UGT>::name()}, {"dir", false},
+                                 {"seq", seq}, {"out", encOf(u)}});
+        } catch (const std::exception &e) {
+            r.fail(std::string("an edge-list constructor threw: ") + e.what());
+        }
+    }
     template <class DGT, class UGT, class A> void edgeList(const json &c, CaseResult &r) {
         using E = LabeledEdge<A>;
         std::vector<E> v;
